@@ -30,6 +30,7 @@ import (
 
 	"github.com/AliceO2Group/Control/common/gera"
 	"github.com/AliceO2Group/Control/common/utils/uid"
+	"github.com/AliceO2Group/Control/common/verifhook"
 	"github.com/AliceO2Group/Control/core/repos"
 	"github.com/AliceO2Group/Control/core/task"
 	"github.com/AliceO2Group/Control/core/task/constraint"
@@ -175,8 +176,10 @@ func (i *iteratorRole) ProcessTemplates(workflowRepo repos.IRepo, loadSubworkflo
 		for roleIdx := range i.Roles {
 			go func(roleIdx int) {
 				defer wg.Done()
+				verifhook.Point("wl.iter.child.start", "iter", i, "idx", roleIdx, "n", len(i.Roles))
 				role := i.Roles[roleIdx]
 				err = role.ProcessTemplates(workflowRepo, loadSubworkflow, baseConfigStack)
+				verifhook.Point("wl.iter.child.done", "iter", i, "idx", roleIdx, "n", len(i.Roles))
 				if err != nil {
 					roleErrors = multierror.Append(roleErrors, err)
 				}
@@ -241,6 +244,7 @@ func (i *iteratorRole) expandTemplate() (err error) {
 		for rangeIdx := range ran {
 			go func(rangeIdx int) {
 				defer wg.Done()
+				verifhook.Point("wl.iter.expand.start", "iter", i, "idx", rangeIdx, "n", len(ran))
 				localValue := ran[rangeIdx]
 				locals := make(map[string]string)
 				locals[i.For.GetVar()] = localValue
